@@ -479,12 +479,37 @@ Fixpoint has_infix (p s : bytes) : bool :=
   | [] => is_prefix p []
   | _ :: r => is_prefix p s || has_infix p r
   end.
+(* undo the percent-encoding of the dumps *)
+Definition unhexd (c : N) : N := if c <? 58 then c - 48 else c - 55.
+Fixpoint unpct (s : bytes) : bytes :=
+  match s with
+  | 37 :: a :: b :: r => (unhexd a * 16 + unhexd b) :: unpct r
+  | c :: r => c :: unpct r
+  | [] => []
+  end.
+
+(* what an accepted event shows of the keys a receiver discards (outlier, destinations, age_ts,
+   unsigned, and event_id where the ID is a hash): nothing, whether or not its hash matched *)
+Definition discarded_keys_absent (ver : bytes) (sec : list bytes) : bool :=
+  match field (bs "json") sec with
+  | Some t =>
+      match parse_json (unpct t) with
+      | Some e => forallb (fun k => negb (mem_bytes k (jkeys e))) (strip_keys (class_untrusted ver))
+      | None => false
+      end
+  | None => true
+  end.
+
 Definition prop_untrusted (args : list bytes) : bytes :=
-  match rev args with
-  | out :: _ => if has_infix PANIC out then fail (bs "an accepted event crashes an accessor or Redact")
-                else if has_infix (bs "pure=CHANGED") out then fail (bs "a read-only accessor changed the event")
-                else ok
-  | [] => bs "badargs"
+  match rev args, args with
+  | out :: _, ver :: _ =>
+      if has_infix PANIC out then fail (bs "an accepted event crashes an accessor or Redact")
+      else if has_infix (bs "pure=CHANGED") out then fail (bs "a read-only accessor changed the event")
+      else if bytes_eqb out (bs "err") then ok
+      else if negb (discarded_keys_absent ver (section (bs "parsed") out)) then
+        fail (bs "the accepted event still carries a key that is discarded on receipt")
+      else ok
+  | _, _ => bs "badargs"
   end.
 
 Definition ops_C03 : list (bytes * (list bytes -> bytes)) :=
